@@ -32,6 +32,7 @@ type ConcOpts struct {
 	AimAdvance bool // half of the clock advances are aimed at the configured lifetime (d, d-1, d/2+1, d+0..2, d/3+1)
 	WakeDuel   bool // a quarter of the runs: the tiny "non-writer asks for a drain while a writer publishes" scenario (see wakeDuel)
 	Admission  bool // C18: observe maintenance passes, estimate look-ups and evictions; judge every displacement (conc_admit.go)
+	IterDuel   bool // a quarter of the runs: the tiny "slow traversal vs rewrite with a shorter lifetime" scenario (see iterDuel)
 	TinyP      int  // one run in TinyP is a tiny program (2-3 tasks x 1-3 operations, 1-2 keys)
 	Ticker     bool // half of the runs: clock advances feed the clock's ticker, so otter's periodic clean-up goroutine runs CleanUp concurrently with the clients
 	NonTrivial func(o *ConcOutcome) bool
